@@ -83,14 +83,15 @@ def r_simple_key_fits(ctx, repo):
         raise AnalysisError('stale_possible_simple_keys: window constant not found')
     # worst-case expansion of one character in a double-quoted scalar: longest numeric escape template
     wd = _method(repo, 'emitter.Emitter', 'write_double_quoted')
+    from . import rules_emit as _RE
     widths = []
-    for n in walk_function(wd.node):
-        if isinstance(n, ast.BinOp) and isinstance(n.op, ast.Mod) and isinstance(n.left, ast.Constant) and isinstance(n.left.value, str) \
-                and n.left.value.startswith('\\'):
-            try:
-                widths.append(len(n.left.value % 0))
-            except (TypeError, ValueError):
-                pass
+    for n, segs in _RE.formattings(wd.node):
+        # a numeric escape: a literal starting with a backslash followed by one fixed-width hexadecimal field
+        if len(segs) == 2 and segs[0][0] == 'lit' and segs[0][1].startswith('\\') and segs[1][0] == 'fmt':
+            spec = segs[1][1]
+            digits = ''.join(ch for ch in spec if ch.isdigit())
+            if spec and spec[-1] in 'xX' and digits:
+                widths.append(len(segs[0][1]) + int(digits))
     if not widths:
         raise AnalysisError('write_double_quoted: numeric escape templates not found')
     expansion = max(widths) if raw_len else 1
@@ -189,52 +190,12 @@ def r_analyze_special(ctx, repo):
                                          'reader refuses as non-printable, and - unless allow_unicode - for every non-ASCII character '
                                          '(including NEL, LS, PS)')
     f = _method(repo, 'emitter.Emitter', 'analyze_scalar')
-    # the "special" flag: the local whose truth disables all of flow-plain, block-plain, single-quoted and block
-    disables = {}
-    for n in walk_function(f.node):
-        if isinstance(n, ast.If):
-            names = set()
-            for s in n.body:
-                if isinstance(s, ast.Assign) and isinstance(s.value, ast.Constant) and s.value.value is False:
-                    for t in s.targets:
-                        for x in ast.walk(t):
-                            if isinstance(x, ast.Name):
-                                names.add(x.id)
-            for cj in A.conjuncts(n.test) if not isinstance(n.test, ast.BoolOp) or isinstance(n.test.op, ast.And) else \
-                    (n.test.values if isinstance(n.test.op, ast.Or) else [n.test]):
-                if isinstance(cj, ast.Name):
-                    disables.setdefault(cj.id, set()).update(names)
-    flag = [k for k, v in disables.items() if len(v) >= 4]
-    # the direct form (flags computed as boolean expressions, no knock-down ifs)
-    direct = None
-    if not flag:
-        # allow_x = not (... or special ...) : find a local read negatively in >= 3 assignments of allow_* style
-        uses = {}
-        for n in walk_function(f.node):
-            if isinstance(n, ast.Assign) and len(n.targets) == 1 and isinstance(n.targets[0], ast.Name) \
-                    and isinstance(n.value, (ast.BoolOp, ast.UnaryOp)):
-                for x in ast.walk(n.value):
-                    if isinstance(x, ast.UnaryOp) and isinstance(x.op, ast.Not) and isinstance(x.operand, ast.Name):
-                        uses.setdefault(x.operand.id, set()).add(n.targets[0].id)
-        flag = [k for k, v in uses.items() if len(v) >= 4]
-    if len(flag) < 1:
-        raise AnalysisError('analyze_scalar: the flag that rules out all styles but double-quoted was not recognised')
-    # among candidates take the one set inside the per-character loop
-    loop = None
-    for n in walk_function(f.node):
-        if isinstance(n, ast.While) and any(isinstance(x, ast.Subscript) for x in ast.walk(n)):
-            loop = n
-            break
-    if loop is None:
-        raise AnalysisError('analyze_scalar: character loop not found')
-    chvar = None
-    for s in loop.body:
-        if isinstance(s, ast.Assign) and isinstance(s.value, ast.Subscript) and isinstance(s.targets[0], ast.Name) \
-                and not isinstance(s.value.slice, ast.Slice):
-            chvar = s.targets[0].id
-            break
-    if chvar is None:
-        raise AnalysisError('analyze_scalar: current character variable not found')
+    # loop, character variable(s) and flag(s) by role (shared with R-ASCII-RAW): a flag is a local the per-character loop sets
+    # to True such that the code after the loop then allows the double-quoted style only
+    from . import rules_opts as _RO
+    loop, cvars, flag = _RO._scalar_analysis_parts(repo, f)
+    flag = sorted(flag)
+    chvar = sorted(cvars)[0]
     sets = []
     for n in ast.walk(loop):
         if isinstance(n, ast.Assign) and isinstance(n.value, ast.Constant) and n.value.value is True \
@@ -257,8 +218,8 @@ def r_analyze_special(ctx, repo):
                 if norm(node) == 'self.allow_unicode':
                     return allow_unicode
                 names = {x.id for x in ast.walk(node) if isinstance(x, ast.Name)}
-                if names <= {chvar}:
-                    return CW.eval_cond(repo, node, {chvar: c})
+                if names and names <= set(cvars):
+                    return CW.eval_cond(repo, node, {v: c for v in cvars})
                 return None
             for t, want in conds:
                 v = A.eval3(t, atom)
